@@ -124,6 +124,9 @@ class CallGraph:
         self.edges = {}       # name -> set of callee names (local bodies or external names)
         self.sites = {}       # name -> list of (block, term, callee_name or None)
         self.closure_parent = {}
+        # (caller, impl) edges that stand for a trait call on a generic type parameter: the callee is the
+        # implementation for a strictly smaller type, so these edges cannot close an unbounded recursion
+        self.generic_edges = set()
         self.trait_impls = {}  # trait method canonical (e.g. llfree::Alloc::put) -> [impl body names]
         for n, b in self.bodies.items():
             if b.impl_trait:
@@ -146,6 +149,7 @@ class CallGraph:
                     # unresolved call on a generic receiver: every impl in the program
                     for impl in self.trait_impls[cn]:
                         out.add(impl)
+                        self.generic_edges.add((n, impl))
                     out.add(cn)
                 else:
                     out.add(cn)
